@@ -536,6 +536,11 @@ def run_check(prop, cfg, tier, seed, workdir):
                                      "lines_compared": res.get("nd", {}).get("compared", 0),
                                      "lines_differing": res.get("nd", {}).get("differ", 0),
                                      "note": res.get("nd", {}).get("note", "")},
+            "third_build_profile": {"what": "crate and harness UNOPTIMISED (harness/target-o0, what a plain `cargo build` gives): the cases "
+                                            "that run in child processes (`buildbig`) are also run there; a differing or dying child is "
+                                            "reported as the outcome of the case",
+                                    "binary_present": os.path.exists(os.path.join(HARNESS, "target-o0", "debug", "fqv")),
+                                    "child_process_cases": res["ops"].get("buildbig", 0) if isinstance(res.get("ops"), dict) else 0},
             "broken": broken, "partial": cfg.get("partial", False), "missing": cfg.get("missing", []),
             "exhaustive": bool(cfg.get("exhaustive_" + tier, False)),
             "notes": notes,
